@@ -298,7 +298,8 @@ def same_content(fam, T, got, want):
     if got is None:
         return False
     if fam == "map":
-        return got == want and list(got) == list(want) if False else got == want
+        # a dict is ordered: `d[k] = v` under a key that is present keeps the entry where it is, a new key goes to the end
+        return got == want and list(got) == list(want)
     def same(g, w):  # 1 and 1.0 are different elements of a container of floats
         return g == w and (type(g) is type(w) or not isinstance(g, (int, float)))
 
@@ -396,6 +397,10 @@ def case_strategy(draw):
     hist = [ops.gen_new(src, info)]
     for _ in range(src.choice(7)):
         hist.append(ops.gen_element_call(src, info, None, attr, True, (0, 1)))
+    T = info.attrs()[attr]["type"]
+    if T[0] in ("list", "dict") and T[-1] == ["spec", "U"] and src.chance(1, 4):
+        # the very same (unkeyed) element object at several positions / keys: an element helper edits the addressed slot only
+        hist.append({"t": "set", "attr": attr, "v": ["$alias", attr, 2 + src.choice(2)]})
     probe = ops.gen_element_call(src, info, None, attr, src.pick([False, False, True]), (0, 1))
     return {"world": wd, "ops": hist, "probe": probe, "attr": attr}
 
